@@ -225,17 +225,20 @@ def sc_piecewise(cfg):
         y, w = _vector(C, "y", n), _vector(C, "w", n)
         cx, cy, cw = _cells(X), _cells(y), _cells(w)
         inner = Member()
-        est = pe.PiecewiseRegressor(binner=c08.StubTree(n_leaves=2), estimator=inner)
+        binner = c08.StubTree(n_leaves=2)
+        est = pe.PiecewiseRegressor(binner=binner, estimator=inner)
         before = est.get_params(deep=True)
+        weighted = bool(C.bool("with_sample_weight"))
         with harness.patched(pe, Parallel=c08.make_parallel(False), delayed=lambda f: (lambda *a, **k: (f, a, k))):
             try:
-                r = est.fit(X, y, sample_weight=w)
+                r = est.fit(X, y, sample_weight=w) if weighted else est.fit(X, y)
                 C.true(r is est, "fit-returns-self")
                 ok = True
             except Fault:
                 ok = False
         _params_equal(C, before, est.get_params(deep=True), "PiecewiseRegressor/hyper-parameters-unchanged" + ("" if ok else "-after-a-failed-fit"))
         C.true(not hasattr(inner, "coef_"), "PiecewiseRegressor/the-estimator-parameter-is-never-fitted(clones-are)")
+        C.true(not hasattr(binner, "tree_") and (not ok or est.binner_ is not binner), "PiecewiseRegressor/the-binner-parameter-is-never-fitted(its-clone-is)", detail=dict(weighted=weighted))
         C.true(_same_cells(X, cx) and _same_cells(y, cy) and _same_cells(w, cw), "PiecewiseRegressor/caller-data-untouched")
 
     return scenario
@@ -392,6 +395,10 @@ def sc_wrappers(cfg):
             inner = Inner()
             est = tp.TransformedTargetRegressor2(regressor=inner, transformer="log")
             args = (X, y)
+        elif which == "ttr_default":
+            inner = None  # regressor=None: the documented default (a LinearRegression) is built at fit time
+            est = tp.TransformedTargetRegressor2(regressor=None, transformer="log")
+            args = (X, y)
         elif which == "ttc":
             inner = Inner()
             est = tp.TransformedTargetClassifier2(classifier=inner, transformer="permute")
@@ -411,8 +418,12 @@ def sc_wrappers(cfg):
             sw0 = None if sw is None else sw.copy()
             kwargs = dict(sample_weight=sw)
         before = est.get_params(deep=True)
+        import contextlib
+
+        default_stub = harness.patched(tp, LinearRegression=Inner) if which == "ttr_default" else contextlib.nullcontext()
         try:
-            r = est.fit(*args, **(kwargs if which == "kml1" else {}))
+            with default_stub:
+                r = est.fit(*args, **(kwargs if which == "kml1" else {}))
             C.true(r is est, "fit-returns-self")
             ok = True
         except Fault:
@@ -459,6 +470,7 @@ def configs(tier):
         out.append(dict(kind="quantile", q=q))
     for which in ("ttr", "ttc", "tsne", "kml1"):
         out.append(dict(kind="wrappers", which=which))
+    out.append(dict(kind="wrappers", which="ttr_default"))
     return out
 
 
